@@ -104,6 +104,14 @@ def _program(draw):
             first["params"] = first["params"] + ["md_own"]
             first["defaults"]["md_own"] = {"__mut__": draw(st.sampled_from(MUT_KINDS))}
             first["mutates"] = list(first.get("mutates", [])) + ["md_own"]
+    if prob(draw, 0.25):
+        # an accumulator: a node that takes a name with a mutable signature default, mutates the object in place and PRODUCES that
+        # same name (`add(item, history=[]) -> history`); nobody else takes or produces the name
+        acc = topo[draw(st.integers(0, len(topo) - 1))]
+        acc["params"] = list(acc["params"]) + ["md_self"]
+        acc["defaults"]["md_self"] = {"__mut__": draw(st.sampled_from(MUT_KINDS))}
+        acc["mutates"] = list(acc.get("mutates", [])) + ["md_self"]
+        acc["outs"] = list(acc["outs"]) + ["md_self"]
     if prob(draw, 0.3):
         # nodes that mutate a default are CACHEABLE and also take an input that cannot be pickled (a callable): no cache key can be
         # formed, so they run every time - on runners that carry a cache - exactly as without one
